@@ -36,3 +36,12 @@ Lemma grouping_example :
   option_map (fun r => (r_type r, nla r)) (result_of (analyse_x true sysN mark_e)) =
     Some (MNla, [(Some 1001, [(0, 0)], Some 0, []); (Some 1002, [(0, 1)], Some 1, [])]).
 Proof. vm_compute. split; reflexivity. Qed.
+
+(** dx/dt = 1001 with x uninitialised: under-constrained ("used in an ODE, but not initialised").  Marking x as external
+    does NOT rescue it: the third pass only looks at external variables of type UNKNOWN, x is SHOULD_BE_STATE. *)
+Definition sysE : system := [ mkComp [mkVar 0 0 INone; mkVar 1 1 INone] [mkEqn 1001 (EDiff 0 1) ECn] ].
+
+Lemma uninitialised_state_not_rescued :
+  option_map (fun r => (r_type r, r_issues r)) (result_of (analyse_x true sysE [])) = Some (MUnderconstrained, [mkIssue RStateNotInit (0, 1)]) /\
+  option_map (fun r => (r_type r, r_issues r)) (result_of (analyse_x true sysE mark_x)) = Some (MUnderconstrained, [mkIssue RStateNotInit (0, 1)]).
+Proof. vm_compute. split; reflexivity. Qed.
